@@ -17,6 +17,9 @@ import time
 import traceback
 
 VERIF = os.path.dirname(os.path.dirname(os.path.abspath(__file__)))
+# evidence/ and replays/ go to /verif unless VERIF_OUT redirects them (used when a check is run against a scratch
+# copy of the repository, so that the committed evidence is never overwritten by such a run)
+OUT = os.environ.get("VERIF_OUT") or VERIF
 
 
 def _setup_private_env():
@@ -133,8 +136,8 @@ def main(argv):
             "wall_s": round(wall, 2),
             "violations": len(unknown),
         }
-        os.makedirs(os.path.join(VERIF, "evidence"), exist_ok=True)
-        epath = os.path.join(VERIF, "evidence", f"{pid}.json")
+        os.makedirs(os.path.join(OUT, "evidence"), exist_ok=True)
+        epath = os.path.join(OUT, "evidence", f"{pid}.json")
         with open(epath, "w") as f:
             json.dump(evidence, f, indent=1, sort_keys=True, ensure_ascii=True)
             f.write("\n")
@@ -147,7 +150,7 @@ def main(argv):
             print(f"KNOWN-FINDING: property={pid} {sig} ({n} case(s)): {known[sig]}")
         rc = 0
         if unknown:
-            rdir = os.path.join(VERIF, "replays", pid)
+            rdir = os.path.join(OUT, "replays", pid)
             os.makedirs(rdir, exist_ok=True)
             for sig in unknown[:40]:
                 n, case, detail = tally.fails[sig]
